@@ -82,3 +82,55 @@ Definition oracle (i : input) (o : obs) : bool :=
 Definition check_case (c : case) : N :=
   (if obs_eqb_s (i_s (fst c)) (model_obs (fst c)) (snd c) then 0 else 1)
   + (if oracle (fst c) (snd c) then 0 else 2).
+
+(* ---- conflicts accumulated from two successive merges ----
+   The table may already carry conflict artifacts of an earlier merge (committed with
+   dolt_allow_commit_conflicts) whose "theirs" rows live in a different root.  [prior] are those
+   artifacts (key, base, ours, theirs) — on keys the present merge does not touch.  The conflict
+   table lists both generations; resolve --theirs must take every row from ITS OWN merge's theirs
+   (resolveProllyConflicts reloads the their-map when TheirRootIsh changes). *)
+Definition model_obs_p (prior : list conflict_entry) (i : input) : obs :=
+  let M := table_merge true (i_s i) (i_s i) (i_s i) (i_b i) (i_l i) (i_r i) in
+  let conf := m_conf M ++ prior in
+  let ro := resolve_state true (m_rows M) conf in
+  let rt := resolve_state false (m_rows M) conf in
+  {| o_err := m_err M; o_rows := m_rows M; o_conf := conf;
+     o_ours := fst ro; o_ours_left := N.of_nat (length (snd ro));
+     o_theirs := fst rt; o_theirs_left := N.of_nat (length (snd rt));
+     o_ours_ix := map (fun v => (v, lookup_idx v (build_idx 0 (m_rows M)))) (i_probes i);
+     o_theirs_ix := map (fun v => (v, lookup_idx v (resolve_idx 0 (m_rows M) conf (build_idx 0 (m_rows M))))) (i_probes i) |}.
+
+Definition oracle_p (prior : list conflict_entry) (i : input) (o : obs) : bool :=
+  let s := i_s i in
+  negb (o_err o)
+  && forallb (fun k =>
+       let expected := match getc k prior with
+                       | Some e => Some e
+                       | None => spec_conflict_entry s s s (i_b i) (i_l i) (i_r i) k
+                       end in
+       let their_version := match getc k prior with Some (_, _, th) => th | None => get k (i_r i) end in
+       match expected, getc k (o_conf o) with
+       | None, None => true
+       | Some (b1, o1, t1), Some (b2, o2, t2) => orow_eqb b1 b2 && orow_agree s o1 s o2 && orow_eqb t1 t2
+       | _, _ => false
+       end
+       && orow_agree s (spec_resolved true (o_rows o) (o_conf o) k) s (get k (o_ours o))
+       && orow_agree s (spec_resolved false (o_rows o) (o_conf o) k) s (get k (o_theirs o))
+       && match getc k (o_conf o) with
+          | Some _ => orow_agree s (get k (i_l i)) s (get k (o_ours o)) && orow_agree s their_version s (get k (o_theirs o))
+          | None => true
+          end)
+     (all_keys (i_b i) (i_l i) (i_r i) ++ keys (o_rows o) ++ map fst (o_conf o) ++ keys (o_ours o) ++ keys (o_theirs o) ++ map fst prior)
+  && (o_ours_left o =? 0) && (o_theirs_left o =? 0)
+  && forallb (lookup_ok (o_ours o)) (o_ours_ix o) && forallb (lookup_ok (o_theirs o)) (o_theirs_ix o).
+
+Definition pcase := (list conflict_entry * case)%type.
+
+Definition check_case_p (pc : pcase) : N :=
+  let '(prior, c) := pc in
+  (if obs_eqb_s (i_s (fst c)) (model_obs_p prior (fst c)) (snd c) then 0 else 1)
+  + (if oracle_p prior (fst c) (snd c) then 0 else 2).
+
+(* one dolt_conflicts_resolve call may name several tables: a case is the list of the per-table cases
+   of one script; the verdict bits are or-ed *)
+Definition check_multi (cs : list pcase) : N := fold_right (fun c acc => N.lor (check_case_p c) acc) 0 cs.
